@@ -247,6 +247,38 @@ Fixpoint sequence_abort (kps : list (string * prog)) : prog :=
         end)
   end.
 
+(* execute_fields with per-field settings, as a program: sequential fields are awaited one after the other
+   (an exception aborts: nothing later starts, the deferred ones neither), then ALL deferred fields fan out
+   in one gather; results are merged by field position *)
+Fixpoint a_mixed_pass1 (isc : string -> list fnode -> bool) (arf : string -> list fnode -> prog)
+         (fs : fields) (k : list (option (option pyval)) -> prog) : prog :=
+  match fs with
+  | [] => k []
+  | (key, nodes) :: rest =>
+      if isc key nodes then a_mixed_pass1 isc arf rest (fun slots => k (None :: slots))
+      else bind (arf key nodes) (fun r =>
+             match r with
+             | ROpt o => a_mixed_pass1 isc arf rest (fun slots => k (Some o :: slots))
+             | other => Ret other
+             end)
+  end.
+
+Fixpoint interleave (slots : list (option (option pyval))) (rs : list res) : list res :=
+  match slots with
+  | [] => []
+  | Some o :: srest => ROpt o :: interleave srest rs
+  | None :: srest => match rs with
+                     | r :: rs' => r :: interleave srest rs'
+                     | [] => RCrash KeyError :: interleave srest []
+                     end
+  end.
+
+Definition a_exec_fields_mixed (isc : string -> list fnode -> bool) (arf : string -> list fnode -> prog)
+           (fs : fields) : prog :=
+  a_mixed_pass1 isc arf fs (fun slots =>
+    Gather (map (fun kn => arf (fst kn) (snd kn)) (filter (fun kn => isc (fst kn) (snd kn)) fs))
+           (fun rs => Ret (merge_fields (map fst fs) (interleave slots rs)))).
+
 Definition arfun := string -> pyval -> list pkey -> string -> list fnode -> prog.
 
 Definition a_exec_sub (rf : arfun) (nodes : list fnode) (otype : string) (value : pyval)
@@ -258,10 +290,7 @@ Definition a_exec_sub (rf : arfun) (nodes : list fnode) (otype : string) (value 
                              | RKVs kv => Ret (RVal (PDict kv))
                              | other => Ret other
                              end in
-      if parent_concurrently cfg
-      then Gather (map (fun kn => rf otype value opath (fst kn) (snd kn)) sub)
-                  (fun rs => finish (merge_fields (map fst sub) rs))
-      else bind (sequence_abort (map (fun kn => (fst kn, rf otype value opath (fst kn) (snd kn))) sub)) finish
+      bind (a_exec_fields_mixed (field_conc cfg otype) (fun k ns => rf otype value opath k ns) sub) finish
   end.
 
 Definition a_leaf (rf : arfun) (ptype : string) (fd : field_def) (nodes : list fnode)
@@ -317,6 +346,7 @@ Definition a_leaf (rf : arfun) (ptype : string) (fd : field_def) (nodes : list f
 Section ACoercer.
 Variable nodes : list fnode.
 Variable leaf : string -> pyval -> list pkey -> prog.
+Variable lconc : bool.          (* the field's list_concurrently, resolved at bake time *)
 
 Fixpoint a_coerce_output (t : ty) (v : pyval) (path : list pkey) {struct t} : prog :=
   match t with
@@ -341,7 +371,7 @@ Fixpoint a_coerce_output (t : ty) (v : pyval) (path : list pkey) {struct t} : pr
                            | other => Ret other
                            end) in
           let progs := map item_prog (enumerate_from 0 items) in
-          if list_concurrently cfg
+          if lconc
           then Gather progs (fun rs => Ret (collect_item_results rs))
           else sequence progs (fun rs => Ret (collect_item_results rs))
       | _ => Ret (RExc [engine_err "not-a-list"])
@@ -364,7 +394,9 @@ Definition a_resolve_field_body (rf : arfun) (ptype : string) (source : pyval) (
                   | RVal v =>
                       match is_exc_value v with
                       | Some e => Ret (RExc [e])
-                      | None => a_coerce_output nodes (a_leaf rf ptype fd nodes path) (fd_type fd) v path
+                      | None => a_coerce_output nodes (a_leaf rf ptype fd nodes path)
+                                  (match field_list cfg ptype (fd_name fd) with Some b => b | None => list_concurrently cfg end)
+                                  (fd_type fd) v path
                       end
                   | other => Ret other
                   end)
@@ -416,10 +448,7 @@ Definition a_execute_operation (op : operation) (root_value : pyval) : prog :=
                                  end in
           match o_kind op with
           | OpMutation => serial finish
-          | _ => if parent_concurrently cfg
-                 then Gather (map (fun kn => rf (fst kn) (snd kn)) fs)
-                             (fun rs => finish (merge_fields (map fst fs) rs))
-                 else serial finish
+          | _ => bind (a_exec_fields_mixed (field_conc cfg rt) rf fs) finish
           end
       end
   end.
